@@ -284,7 +284,7 @@ impl C14 {
 
 impl Monitor for C14 {
     fn total_cases(&self) -> u64 {
-        self.tier.pick(3_000, 200_000)
+        self.tier.pick(40_000, 1_000_000)
     }
     fn run_case(&mut self, k: u64, rng: &mut Rng, col: &mut Collector) {
         self.history(k, rng, col);
